@@ -32,7 +32,7 @@ import numpy as np
 import z3
 
 from . import sym, shim
-from .sym import SNum, SCplx, SBool, Path, Unsupported, PathBudget, is_sym
+from .sym import SNum, SCplx, SBool, Path, Unsupported, PathBudget, Cut, is_sym
 
 TOL = 1e-7
 
@@ -52,6 +52,7 @@ class ContractDef:
         self.lemmas = opts.pop('lemmas', ())
         self.patches = opts.pop('patches', ())
         self.no_crosscheck = opts.pop('no_crosscheck', False)
+        self.rng_calls = opts.pop('rng_calls', None)
         self.tier = opts.pop('tier', 'quick')      # 'thorough': only run by the thorough tier
         self.doc = (fn.__doc__ or '').strip()
         if opts:
@@ -346,7 +347,7 @@ class Ctx:
     def outcome(self, fn, *a, **k):
         try:
             return Outcome(value=fn(*a, **k))
-        except (Unsupported, PathBudget, Reject):
+        except (Unsupported, PathBudget, Reject, Cut):
             raise
         except Exception as e:
             if self.symbolic and self.path.unsupported is not None:
@@ -491,12 +492,15 @@ def explore(cdef, max_paths=None, feas_timeout_ms=800):
             break
         prefix = work.pop()
         path = Path(prefix, feas_timeout_ms=feas_timeout_ms)
+        path.rng_limit = cdef.rng_calls
         ctx = Ctx('sym', path=path, cdef=cdef)
         sym._CUR[0] = path
         status, exc, tb = 'ok', None, None
         try:
             with shim.patched(cdef.patches):
                 cdef.fn(ctx)
+        except Cut as e:
+            status, exc = 'cut', e
         except (Unsupported, PathBudget) as e:
             status, exc = 'unsupported', e
         except Reject as e:
@@ -768,6 +772,9 @@ def verify_contract(cdef, tier='quick', seed=0):
             out['undecided'].append("unsupported construct on a path: %s" % (run.exc,))
             continue
         if run.status == 'rejected':
+            continue
+        if run.status == 'cut':
+            out['cut_paths'] = out.get('cut_paths', 0) + 1
             continue
         if path.infeasible:
             continue
